@@ -98,8 +98,15 @@ fn tombstone_violations(peer: &str, s: &Snapshot) -> Vec<Violation> {
     for d in &s.edge_dels {
         for e in &s.edges {
             if e.src == d.src && e.dest == d.dest && e.label == d.label && e.cdate <= d.cdate {
+                // the deleted instance itself came back, or an older instance of the same reference (created on
+                // another peer before the deleted one, by somebody who had not seen it) is stored beside the record
+                let sig = if e.cdate == d.cdate {
+                    "resurrection:edge"
+                } else {
+                    "resurrection:edge:older-instance-of-the-reference"
+                };
                 out.push(v(
-                    "resurrection:edge",
+                    sig,
                     format!(
                         "{} stores edge {}-{}->{} cdate {} although it holds a deletion record for cdate {}",
                         peer, e.src, e.label, e.dest, e.cdate, d.cdate
